@@ -602,9 +602,13 @@ fn operators(h: &H, idx: u64, rng: &mut Rng) {
             v(h, idx, "gridshift/2-band-forward-does-not-add-the-shift", J::obj().set("input", J::coords(&p)).set("output", J::coords(&r)).set("model_shift_lon_lat", J::coords(&w[..2])));
             return;
         }
-        // the inverse finds the point whose forward image is the input
+        // the inverse finds the point whose forward image is the input (asked only where the
+        // image and its surroundings, two shift lengths wide, are still covered: with cells of a
+        // few arc minutes the shift itself can leave the grid)
         let (b, cb) = apply1(&ctx, op, D::I, r);
-        if cb != 1 || !((b[0] - lon).abs() <= 1e-10 && (b[1] - lat).abs() <= 1e-10) {
+        let reach = 2.0 * (w[0].abs() + w[1].abs());
+        let covered = [-1.0, 1.0].iter().all(|s| m2.contains(r[0] + s * reach, r[1] + s * reach, 0.0) && m2.contains(r[0] + s * reach, r[1] - s * reach, 0.0));
+        if covered && (cb != 1 || !((b[0] - lon).abs() <= 1e-10 && (b[1] - lat).abs() <= 1e-10)) {
             v(h, idx, "gridshift/2-band-inverse", J::obj().set("input", J::coords(&r)).set("output", J::coords(&b)).set("expected", J::coords(&p)));
             return;
         }
